@@ -415,6 +415,8 @@ def gen_optimization(ch):
         "randseed": ch.choose("randseed", 2**31 - 1),
         "clock": _clock_spec(ch),
     }
+    if package is None and paired is None and ch.flip("optimization_object_reused", 0.3):
+        spec["reused"] = [1.7, 0.5][ch.choose("reused.scale", 2)]
     return spec
 
 
@@ -558,6 +560,8 @@ def execute(spec, fault, bump):
         orig_csb = aopt.constrain_sum_bounded
 
         def csb_wrapper(*a, **k):
+            if not state.get("armed", True):
+                return orig_csb(*a, **k)
             state["n_constrain"] += 1
             if fault is not None and fault[1] == "FailedConstraint" and state["n_constrain"] == fault[0]:
                 state["fault_fired"] = True
@@ -577,6 +581,8 @@ def execute(spec, fault, bump):
             def loads(self, b, *a, **k):
                 import pickle as _p
 
+                if not state.get("armed", True):
+                    return _p.loads(b, *a, **k)
                 state["n_loads"] += 1
                 if fault is not None and fault[1] == "UnpicklingError" and state["n_loads"] == fault[0]:
                     state["fault_fired"] = True
@@ -773,6 +779,21 @@ def execute(spec, fault, bump):
                     else:
                         constraints = at.TotalSpendConstraint(budget_factor=c["budget_factor"])
                 optimization = at.Optimization(adjustments=adjustments, measurables=measurables, constraints=constraints, maxiters=spec["maxiters"], maxtime=spec["max_time"])
+                if spec.get("reused"):
+                    # the caller loops over budget levels with ONE Optimization object: an earlier, un-faulted optimize()
+                    # from another starting allocation precedes the call under test; the call under test must start
+                    # from, be bounded around and keep the total of ITS OWN instructions
+                    state["armed"] = False
+                    earlier = make_instructions(at, progset, spec)
+                    for ts_ in earlier.alloc.values():
+                        ts_.vals = [float(v_) * spec["reused"] for v_ in ts_.vals]
+                    try:
+                        at.optimize(P, optimization, parset, progset, earlier, optim_args={"randseed": spec["randseed"] // 2})
+                    except (aopt.InvalidInitialConditions, aopt.UnresolvableConstraint, aopt.FailedConstraint):
+                        pass
+                    state["armed"] = True
+                    if fault is None:
+                        bump("probe:optimization_object_reused_from_another_start")
                 caller = {"parset": parset, "progset": progset, "instructions": instructions, "settings": P.settings, "data": P.data, "framework": P.framework, "tvec": P.settings.tvec}
                 snap = snapshot(caller)
                 orig_obj = aopt._objective_fcn
